@@ -404,3 +404,10 @@ package derive
 
 //@ func IsComparable(tt types.Type) (r bool)
 //@ abstract: pred flat
+
+//@ func IsError(t types.Type) (r bool)
+//@ abstract: pred
+
+//@ extern func strings.Join(elems []string, sep string) (r string)
+//@ pure
+//@ ensures r == strJoin(elems, sep)
